@@ -202,6 +202,25 @@ def run(ctx):
                     ctx.violation("the frame generated for spans=%d levels=%d span=%s level=%s load=%s does not solve: %s" % (s, l, float(span), float(height), float(load), msg[-200:]),
                                   {"config": cfg, "args": args})
                     concrete += 1
+    # large frames (hundreds of nodes), several times each: every parameter value is in the property's domain
+    big_runs = 0
+    for (s, l) in ([(32, 16)] if ctx.tier == "quick" else [(32, 16), (60, 10), (120, 5), (18, 40)]):
+        for rep_k in range(3 if ctx.tier == "quick" else 6):
+            span, height, load = Fr("400"), Fr("300"), Fr("50")
+            args = ["generate", "--type", "retic", "--spans", str(s), "--levels", str(l)]
+            r = cli.run(ctx, args, name="c19")
+            big_runs += 1
+            if r.status != 0 or r.timeout:
+                ctx.violation("generate exited with status %s for spans=%d levels=%d" % (r.status, s, l), {"config": [s, l, "400", "300", "50"], "args": args})
+                concrete += 1
+                break
+            fails = documented(s, l, span, height, load, parse_generated(ctx, r.stdout))
+            if fails:
+                ctx.violation("generate --spans %d --levels %d (run %d of the same command): %s" % (s, l, rep_k + 1, "; ".join(fails[:3])),
+                              {"config": [s, l, "400", "300", "50"], "args": args, "failures": fails[:10], "note": "repeat the command: the outcome varies from run to run"})
+                concrete += 1
+                break
+    ctx.log("%d generations of frames with more than 500 nodes checked against the documentation" % big_runs)
     for k in sorted(known)[:4]:
         ctx.known.append(k)
     validated = 0
